@@ -267,10 +267,15 @@ def rand_entry(rng, std=2020, allow_invalid=True):
         return ('cd', rng.choice([1, 2, 0x40, 0x7F]) if not bad else 0x80, odata())
     if k == 'lc':
         ct = rng.choice([1, 2, 3])
-        if ct == 1:
-            return ('lc', 1, rng.choice([9600, 500000, 1000000]), rng.choice(['f', 's']))
-        if ct == 2:
-            return ('lc', 2, rng.choice([123456, 500000, 0xFFFFFF, 0x11]), rng.choice(['s', 'i']) if False else 's')
+        ty = rng.choice(['f', 's', 'i'])
+        if ty == 'i':
+            rate = rng.choice([0x01, 0x05, 0x10, 0x12, 0x13])      # standard baudrate identifiers (effective rate differs from the number)
+        elif ty == 'f':
+            rate = rng.choice([9600, 115200, 500000, 1000000])
+        else:
+            rate = rng.choice([123456, 500000, 0xFFFFFF, 0x11, 9600])
+        if ct in (1, 2):
+            return ('lc', ct, rate, ty)
         return ('lc', 3, None, 'f')
     if k == 'rc':
         return ('rc', rng.choice([0, 0x1234, 0xFF00, 0xFFFF]) if not bad else 0x10000, rng.choice([1, 2, 3, 0x7F]), odata())
@@ -279,7 +284,8 @@ def rand_entry(rng, std=2020, allow_invalid=True):
     if k == 'te':
         return ('te', odata())
     if k == 'cl':
-        return ('cl', rng.choice([0xFFFFFF, 0x123456, 0]) if not bad else 0x1000000, rng.choice([None, None, 3]) if std >= 2020 else None)
+        return ('cl', rng.choice([0xFFFFFF, 0x123456, 0]) if not bad else 0x1000000,
+                rng.choice([None, None, 3, 0, 0xFF]) if (std >= 2020 or (allow_invalid and rng.random() < 0.3)) else None)
 
 
 def entry_frame(e, std=2020):
